@@ -226,7 +226,7 @@ theorem verb_methods_known (v : Verb) : methodsOf v.method = [v.method] := by
 /-- `Any` registers the nine methods, in the order of `httpMethods`, when all are accepted -/
 theorem any_registers_all_nine (p : Bytes) (hs : List Nat) :
     (interp (fun _ _ => true) [.any p hs]).regs = httpMethods.map fun m => ⟨m, p, hs⟩ := by
-  have h : methodsOf (B "*") = httpMethods := by decide
+  have h : methodsOf anyArg = httpMethods := by decide
   simp only [interp, execList, exec, routeCall, addRoute, h, groupPrefix, List.foldl_nil, List.nil_append]
   rfl
 
